@@ -35,6 +35,48 @@ fn collect_member<'a>(v: &'a Value, name: &str, out: &mut Vec<&'a Value>) {
     }
 }
 
+/// the description of a key with its material in the spellings the key types do *not* use: PEM for
+/// hex-spelled types (Ed25519, ECDSA), hex of the DER / of the bare key for the PEM-spelled type (RSA),
+/// each with and without the hash-algorithm list; plus every other key type / scheme name on top
+pub fn respelled_keys(k: &PublicKey) -> Vec<Value> {
+    let kj = serde_json::to_value(k).unwrap();
+    let mut out = vec![];
+    let spki = k.as_spki().ok();
+    let mut materials: Vec<String> = vec![];
+    if let Some(der) = &spki {
+        materials.push(pem::encode(&pem::Pem::new("PUBLIC KEY", der.clone())));
+        materials.push(pem::encode(&pem::Pem::new("PUBLIC KEY", der.clone())).replace("\r\n", "\n"));
+        materials.push(crate::proto::hex(der));
+    }
+    materials.push(crate::proto::hex(k.as_bytes()));
+    let own = kj["keyval"]["public"].as_str().unwrap_or("").to_string();
+    for m in materials {
+        if m == own {
+            continue;
+        }
+        for algs in [None, Some(json!(["sha256", "sha512"])), Some(json!(["sha512"]))] {
+            let mut v = kj.clone();
+            v["keyval"]["public"] = Value::String(m.clone());
+            match algs {
+                None => {
+                    v.as_object_mut().unwrap().remove("keyid_hash_algorithms");
+                }
+                Some(a) => v["keyid_hash_algorithms"] = a,
+            }
+            out.push(v.clone());
+            for (t, sc) in [("ecdsa", "ecdsa-sha2-nistp256"), ("ed25519", "ed25519"), ("rsa", "rsassa-pss-sha256")] {
+                if v["keytype"] != t {
+                    let mut w = v.clone();
+                    w["keytype"] = json!(t);
+                    w["scheme"] = json!(sc);
+                    out.push(w);
+                }
+            }
+        }
+    }
+    out
+}
+
 /// a key description read and written again, with its id: `key_dec`
 pub fn key_case(sink: &mut Sink, doc: &Value, class: &str) {
     if doc.to_string().contains("\"Unknown\"") {
@@ -50,7 +92,19 @@ pub fn key_case(sink: &mut Sink, doc: &Value, class: &str) {
         Ok(Err(_)) => "reject".to_string(),
         Ok(Ok(k)) => {
             let id = serde_json::to_value(k.key_id()).unwrap();
-            format!("ok {} {}", id.as_str().unwrap(), proto(&serde_json::to_value(&k).unwrap(), &mut None))
+            let written = serde_json::to_value(&k).unwrap();
+            // the key that was read is the key the document describes: its type, scheme and
+            // hash-algorithm list (absent stays absent) are the document's, and it survives its own
+            // description with the same id
+            for m in ["keytype", "scheme", "keyid_hash_algorithms"] {
+                // (a `null` member is an absent one)
+                sink.oracle(written.get(m) == doc.get(m).filter(|x| !x.is_null()), &format!("a key read from a description has another `{}` than the description gives (its id is that of another description)", m), &op);
+            }
+            match serde_json::from_value::<PublicKey>(written.clone()) {
+                Ok(k2) => sink.oracle(k2 == k && k2.key_id() == k.key_id(), "a key changes (or changes its id) when written and read again", &op),
+                Err(_) => sink.oracle(false, "the description written for an accepted key is rejected", &op),
+            }
+            format!("ok {} {}", id.as_str().unwrap(), proto(&written, &mut None))
         }
     };
     sink.stat(&format!("key_dec/{}/{}", class, ans.split(' ').next().unwrap()));
